@@ -173,6 +173,13 @@ def check_limiter(chk: Check, repo: Repo) -> None:
                                 problems.append("the previous pacing task must be awaited before the next send")
                         if (not rate or label == "internal") and (spawns or "AWAIT_PACER" in tr):
                             problems.append("pacing applied although no rate limit / internal address")
+                        if "CANCEL_PACER" in tr:
+                            problems.append("the pacing task is cancelled while telegrams are still flowing (the next send would not be spaced / would await a cancelled task)")
+                        pacer_after = p.env.get("self._rate_limiter")
+                        if rate and label == "group" and repr(pacer_after) != repr(Obj("Task", "new")):
+                            problems.append(f"after a paced send the stored pacing task is {pacer_after!r}, not the one just started: the next send would not wait 1/rate (whatever the send outcome)")
+                        if (not rate or label == "internal") and repr(pacer_after) != repr(prev):
+                            problems.append(f"pacing task slot changed to {pacer_after!r} without pacing")
                     chk.ob("limiter-iteration", fi.site(), not problems, f"telegram={label} rate_limit={rate} pacer={'running' if prev else 'none'}: trace {list(tr)} -> {end}" + (": " + "; ".join(problems) if problems else ""),
                            key=f"limiter|{label}|{rate}|{bool(prev)}|{tr}|{end}" if problems else f"limiter|{label}|{rate}|{bool(prev)}|{[t for t in tr if t.startswith('OUT:')]}")
 
@@ -206,6 +213,15 @@ def check_processing(chk: Check, repo: Repo) -> None:
             chk.ob("processing-shape", fi.site(), ok, f"{qual.split('.')[1]} dest={dst}: {sorted(got)} (send iff not internal and outgoing; devices and callbacks exactly once)", key=f"proc|{qual}|{dst}" + ("" if ok else f"|{sorted(got)}"))
 
 
+def check_pacer_owner(chk: Check, repo: Repo) -> None:
+    sites = [(f, c) for f in repo.all_functions() for c in calls(f.node) if call_name(c).endswith("_rate_limiter.cancel")]
+    for f, c in sites:
+        chk.ob("pacer-cancel-owner", f.site(c), f.qualname == "TelegramQueue._outgoing_rate_limiter", f"`{call_name(c)}()` in {f.qualname}: the pacing task may only be cancelled by the limiter itself on the sentinel (a cancelled pacer awaited by the limiter would kill it and stall the queue)", key=f"pacer-cancel|{f.qualname}")
+    ws = [w for w in attr_writes(repo, "_rate_limiter", include_mutators=False) if w.func.module.name == TQ]
+    for w in ws:
+        chk.ob("pacer-slot-writer", w.func.site(w.stmt), w.func.qualname in ("TelegramQueue.__init__", "TelegramQueue._outgoing_rate_limiter"), f"`{ast.unparse(w.stmt)[:70]}` in {w.func.qualname}", key=f"pacer-slot|{w.func.qualname}")
+
+
 def check_structure(chk: Check, repo: Repo) -> None:
     # FIFO queues
     for modname, qual, attr in ((TQ, "TelegramQueue.__init__", "outgoing_queue"), ("xknx.xknx", "XKNX.__init__", "telegrams")):
@@ -232,6 +248,7 @@ def run(chk: Check, repo: Repo) -> None:
     check_consumer(chk, repo)
     check_limiter(chk, repo)
     check_processing(chk, repo)
+    check_pacer_owner(chk, repo)
     check_structure(chk, repo)
     chk.rule("E4 pairing by abstract path enumeration of one loop iteration of the consumer and the rate limiter over telegram kind x processing outcome (incl. exceptional exits through finally)")
     chk.rule("E5/E4 structure: FIFO queues, single consumer pair, in-line processing, sentinel shutdown")
